@@ -231,6 +231,9 @@ def run(ctx):
     r3_sync(ctx, prog)
     r4_token_mode(ctx, prog)
     r5_io_locked(ctx, prog)
+    # isValid() is where an object is re-read from disk (R1): every API use of an object reached through a handle must pass it for THAT object, or this process works on stale attributes
+    from rules import c11
+    c11.r3_validate(ctx, prog, rule_id='C15.R6')
 
 
 MUTANTS = [
